@@ -202,6 +202,28 @@ def run_kani_unit(name, workdir, tier, prop):
             except Exception:
                 pass
         entry, und = run_one_uncached(item)
+        # auto-include: an edit may move code into a NEW free helper function of the same source file.  Kani executes
+        # bodies, so the helper needs no contract: when compilation fails with "cannot find function `X`" and a top-level
+        # `fn X` exists in one of the unit's source files it is extracted too and the harness is run again.
+        for _round in range(3):
+            if und is None or "cannot find function" not in (und or ""):
+                break
+            names = set(re.findall(r"cannot find function `([A-Za-z_]\w*)`", und))
+            added = False
+            for nm in sorted(names):
+                for e in cfg.get("extract", []):
+                    try:
+                        text, line = extract_item(REPO, e["file"], "fn " + nm)
+                    except RuntimeError:
+                        continue
+                    with open(os.path.join(dst, cfg["extract"][-1]["out"]), "a") as f:
+                        f.write("\n// auto-included helper (not listed in unit.json): %s:%d\n%s\n" % (e["file"], line, text))
+                    out.setdefault("auto_included", []).append("%s::%s" % (e["file"], nm))
+                    added = True
+                    break
+            if not added:
+                break
+            entry, und = run_one_uncached(item)
         if use_cache and und is None and entry.get("status") in ("SUCCESSFUL", "FAILED"):
             try:
                 os.makedirs(cache_dir, exist_ok=True)
